@@ -17,7 +17,7 @@ Rule → theorem
   interleaved or clashing families                   interleaved_families, clashing_families
   unit not suffixing the name / on info, stateset    unit_not_suffix, unit_on_info_or_stateset
   histogram groups: bounds not increasing,           hist_bounds_not_increasing, hist_counts_not_cumulative (document level),
-    counts not cumulative, no +Inf, _count ≠ +Inf      hist_no_inf_partial, hist_count_ne_inf_partial (sample-list level)
+    counts not cumulative, no +Inf, _count ≠ +Inf      hist_no_inf_document, hist_count_ne_inf_document (document level; _partial: sample-list level)
     counts not integral                                count_not_integral
     bound NaN in any spelling / missing / not a number bucket_bound_nan
   NaN or negative counter-like samples               counter_like_nan, counter_like_negative
@@ -52,6 +52,7 @@ import PromVerif.Lemmas.OMGroup
 import PromVerif.Lemmas.OMLabels
 import PromVerif.Lemmas.OMHist
 import PromVerif.Lemmas.OMHistDoc
+import PromVerif.Lemmas.OMHistClose
 import PromVerif.Lemmas.OMToy
 
 namespace PromVerif.Props.C15
@@ -889,12 +890,11 @@ theorem hist_counts_not_cumulative_partial (P : Params) (n : Str) (samples : Lis
 
 example : errOf (parseDoc "# TYPE a histogram\na_bucket{le=\"1\"} 3\na_bucket{le=\"+Inf\"} 2\n# EOF\n") = some .valueError := by decide
 
-/-- a group whose last bucket line is not `+Inf` is rejected (the group closed by the end of the family or by a
-sample of another group / timestamp; its `_count`/`_sum`/`_created` lines may follow the buckets) -/
-theorem hist_no_inf_partial (P : Params) (n : Str) (samples : List OSample) (h : HistNoInf P n samples)
-    (hrefl : ∀ s ∈ samples, tsEq P s.ts s.ts = true) : isError (checkHistogram P samples n) = true := by
-  obtain ⟨pre, sb, tail, post, b, g, rfl, hb, hinf, htail, hend⟩ := h
-  have hrefl := hrefl sb (by simp)
+/-- (the statement below with its parts explicit; only the bucket line's timestamp must equal itself) -/
+theorem hist_no_inf_core (P : Params) (n : Str) (pre : List OSample) (sb : OSample) (tail post : List OSample) (b : Nat) (g : Labels)
+    (hb : IsBucket P n sb b g) (hinf : P.isPosInf b = false) (htail : ∀ s ∈ tail, InHistGroup n g sb.ts s)
+    (hend : GroupEnds P n g sb.ts post) (hrefl : tsEq P sb.ts sb.ts = true) :
+    isError (checkHistogram P (pre ++ sb :: (tail ++ post)) n) = true := by
   apply hist_of_suffix
   intro h0
   rw [histFinish_cons]
@@ -907,15 +907,22 @@ theorem hist_no_inf_partial (P : Params) (n : Str) (samples : List OSample) (h :
     intro h' hb' ht' ⟨l, hg', hl'⟩
     exact group_end_fails P n h' g l post hg' hl' (by rw [ht', e3]; exact hend) (doChecks_no_inf P h' b hb' hinf)
 
+/-- a group whose last bucket line is not `+Inf` is rejected (the group closed by the end of the family or by a
+sample of another group / timestamp; its `_count`/`_sum`/`_created` lines may follow the buckets) -/
+theorem hist_no_inf_partial (P : Params) (n : Str) (samples : List OSample) (h : HistNoInf P n samples)
+    (hrefl : ∀ s ∈ samples, tsEq P s.ts s.ts = true) : isError (checkHistogram P samples n) = true := by
+  obtain ⟨pre, sb, tail, post, b, g, rfl, hb, hinf, htail, hend⟩ := h
+  exact hist_no_inf_core P n pre sb tail post b g hb hinf htail hend (hrefl sb (by simp))
+
 example : errOf (parseDoc "# TYPE a histogram\na_bucket{le=\"1\"} 1\na_bucket{le=\"2\"} 1\n# EOF\n") = some .valueError := by decide
 example : errOf (parseDoc "# TYPE a histogram\na_bucket{le=\"1\",x=\"y\"} 1\na_bucket{le=\"1\"} 1\na_bucket{le=\"+Inf\"} 1\n# EOF\n") = some .valueError := by decide
 
-/-- a `_count` / `_gcount` that differs from the count of the group's last bucket line is rejected — the count line
-anywhere among the group's non-bucket lines (`…_bucket{+Inf}, _count, _sum, _created` and every permutation) -/
-theorem hist_count_ne_inf_partial (P : Params) (n : Str) (samples : List OSample) (h : HistCountNeInf P n samples)
-    (hrefl : ∀ s ∈ samples, tsEq P s.ts s.ts = true) : isError (checkHistogram P samples n) = true := by
-  obtain ⟨pre, sb, t1, sc, t2, post, b, g, v, c, rfl, hb, ht1, hname, hin, ht2, hv, hc, hne, hend⟩ := h
-  have hrefl := hrefl sb (by simp)
+theorem hist_count_ne_inf_core (P : Params) (n : Str) (pre : List OSample) (sb : OSample) (t1 : List OSample) (sc : OSample)
+    (t2 post : List OSample) (b : Nat) (g : Labels) (v c : Num) (hb : IsBucket P n sb b g)
+    (ht1 : ∀ s ∈ t1, InHistGroup n g sb.ts s) (hname : IsCountLine n sc) (hin : InHistGroup n g sb.ts sc)
+    (ht2 : ∀ s ∈ t2, InHistGroup n g sb.ts s ∧ NotCountLine n s) (hv : sb.value = some v) (hc : sc.value = some c)
+    (hne : P.eq v c = false) (hend : GroupEnds P n g sb.ts post) (hrefl : tsEq P sb.ts sb.ts = true) :
+    isError (checkHistogram P (pre ++ sb :: (t1 ++ sc :: (t2 ++ post))) n) = true := by
   apply hist_of_suffix
   intro h0
   rw [histFinish_cons]
@@ -944,6 +951,13 @@ theorem hist_count_ne_inf_partial (P : Params) (n : Str) (samples : List OSample
       intro h4 hb4 hv4 hc4 ht4 ⟨l4, hg4, hl4⟩
       exact group_end_fails P n h4 g l4 post hg4 hl4 (by rw [ht4, f3, ht2', e3]; exact hend)
         (doChecks_count_ne P h4 v c hv4 (hc4 rfl) hne)
+
+/-- a `_count` / `_gcount` that differs from the count of the group's last bucket line is rejected — the count line
+anywhere among the group's non-bucket lines (`…_bucket{+Inf}, _count, _sum, _created` and every permutation) -/
+theorem hist_count_ne_inf_partial (P : Params) (n : Str) (samples : List OSample) (h : HistCountNeInf P n samples)
+    (hrefl : ∀ s ∈ samples, tsEq P s.ts s.ts = true) : isError (checkHistogram P samples n) = true := by
+  obtain ⟨pre, sb, t1, sc, t2, post, b, g, v, c, rfl, hb, ht1, hname, hin, ht2, hv, hc, hne, hend⟩ := h
+  exact hist_count_ne_inf_core P n pre sb t1 sc t2 post b g v c hb ht1 hname hin ht2 hv hc hne hend (hrefl sb (by simp))
 
 example : isError (parseDoc "# TYPE a histogram\na_bucket{le=\"+Inf\"} 2\na_count 2\na_sum 1\n# EOF\n") = false := by decide
 example : errOf (parseDoc "# TYPE a histogram\na_bucket{le=\"+Inf\"} 2\na_count 3\na_sum 1\n# EOF\n") = some .valueError := by decide
@@ -978,6 +992,66 @@ theorem hist_counts_not_cumulative (P : Params) (ls : List Line) (h : HistCounts
 set_option maxRecDepth 8000 in
 example : errOf (parseDoc "# TYPE a histogram\na_bucket{le=\"1\"} 1\na_bucket{le=\"3\"} 2\na_bucket{le=\"2\"} 2\na_bucket{le=\"+Inf\"} 2\n# TYPE b gauge\nb 1\n# EOF\n") = some .valueError := by decide
 example : errOf (parseDoc "# TYPE a gaugehistogram\na_bucket{le=\"1\",x=\"y\"} 5\na_bucket{le=\"+Inf\",x=\"y\"} 4\n# EOF\n") = some .valueError := by decide
+
+/-! ### the two rules enforced when a group is over, on the document's lines -/
+
+theorem hist_group_rule (P : Params) (ls : List Line) (bad : Str → Str → List OSample → List Line → Prop)
+    (hbad : ∀ n t grp rest, bad n t grp rest →
+      (FamilyCloses n t rest ∧ ∀ S0, isError (checkHistogram P (S0 ++ grp) n) = true) ∨
+      (∀ S0 ext, isError (checkHistogram P (S0 ++ grp ++ ext) n) = true))
+    (h : HistGroupDoc ls bad) : isError (assemble P ls) = true := by
+  obtain ⟨pre, n, t, mid, grp, rest, rfl, ht, hmid, hnames, hnd, hfresh, hb⟩ := h
+  apply isError_of_suffix_kept
+  intro st hk
+  rw [← kwType_eq]
+  have := hist_group_doc P n t ht mid rest grp st hk (fun l hl => inFam_bridge n t l (hmid l hl)) hnames hnd hfresh
+    (hbad n t grp rest hb)
+  simpa [List.append_assoc] using this
+
+/-- **a histogram / gaugehistogram group without a `+Inf` bucket: the DOCUMENT is rejected** — any family name, the
+group anywhere in the family block, anything before the block; the group's last bucket line `sb` (bound not `+Inf`) and
+its `_count`/`_sum`/`_created` lines are new series; then the family is closed (`# TYPE/HELP/UNIT` of any family, `# EOF`,
+a blank or malformed line, a sample of another family, or the end of the input) or a sample line of another group or
+timestamp follows (then the rest of the document is arbitrary) -/
+theorem hist_no_inf_document (P : Params) (ls : List Line) (h : HistNoInfDoc P ls) : isError (assemble P ls) = true := by
+  refine hist_group_rule P ls _ ?_ h
+  rintro n t grp rest ⟨sb, tail, b, g, hb, hinf, htail, hrefl, ⟨rfl, hcl⟩ | ⟨s', rfl, hend⟩⟩
+  · left
+    refine ⟨hcl, fun S0 => ?_⟩
+    have := hist_no_inf_core P n S0 sb tail [] b g hb hinf htail trivial hrefl
+    simpa using this
+  · right
+    intro S0 ext
+    have := hist_no_inf_core P n S0 sb tail (s' :: ext) b g hb hinf htail hend hrefl
+    simpa [List.append_assoc] using this
+
+/-- **a group whose `_count` / `_gcount` differs from its last (`+Inf`) bucket: the DOCUMENT is rejected** — same
+shape: the last bucket line, the group's other lines with the count line among them, all new series, then the closing
+event -/
+theorem hist_count_ne_inf_document (P : Params) (ls : List Line) (h : HistCountNeInfDoc P ls) :
+    isError (assemble P ls) = true := by
+  refine hist_group_rule P ls _ ?_ h
+  rintro n t grp rest ⟨sb, t1, sc, t2, b, g, v, c, hb, ht1, hname, hin, ht2, hv, hc, hne, hrefl, ⟨rfl, hcl⟩ | ⟨s', rfl, hend⟩⟩
+  · left
+    refine ⟨hcl, fun S0 => ?_⟩
+    have := hist_count_ne_inf_core P n S0 sb t1 sc t2 [] b g v c hb ht1 hname hin ht2 hv hc hne trivial hrefl
+    simpa using this
+  · right
+    intro S0 ext
+    have := hist_count_ne_inf_core P n S0 sb t1 sc t2 (s' :: ext) b g v c hb ht1 hname hin ht2 hv hc hne hend hrefl
+    simpa [List.append_assoc] using this
+
+-- every closing event: the next family's metadata, a sample of another family, `# EOF`, the end of the input, another group
+example : errOf (parseDoc "# TYPE a histogram\na_bucket{le=\"1\"} 1\na_count 1\na_sum 1\n# TYPE b gauge\nb 1\n# EOF\n") = some .valueError := by decide
+example : errOf (parseDoc "# TYPE a histogram\na_bucket{le=\"1\"} 1\nb 1\n# EOF\n") = some .valueError := by decide
+example : errOf (parseDoc "# TYPE a histogram\na_bucket{le=\"1\"} 1\n# HELP a x\n# EOF\n") = some .valueError := by decide
+example : errOf (parseDoc "# TYPE a histogram\na_bucket{le=\"1\"} 1\n") = some .valueError := by decide
+example : errOf (parseDoc "# TYPE a gaugehistogram\na_bucket{le=\"1\",x=\"1\"} 1\na_bucket{le=\"+Inf\",x=\"2\"} 1\n# EOF\n") = some .valueError := by decide
+example : errOf (parseDoc "# TYPE a histogram\na_bucket{le=\"+Inf\"} 2\na_sum 1\na_count 3\n# TYPE b gauge\n# EOF\n") = some .valueError := by decide
+set_option maxRecDepth 8000 in
+example : errOf (parseDoc "# TYPE a histogram\na_bucket{le=\"+Inf\",x=\"1\"} 2\na_count{x=\"1\"} 3\na_sum{x=\"1\"} 1\na_bucket{le=\"+Inf\",x=\"2\"} 2\na_count{x=\"2\"} 2\na_sum{x=\"2\"} 1\n# EOF\n") = some .valueError := by decide
+set_option maxRecDepth 8000 in
+example : isError (parseDoc "# TYPE a histogram\na_bucket{le=\"+Inf\",x=\"1\"} 2\na_count{x=\"1\"} 2\na_sum{x=\"1\"} 1\na_bucket{le=\"+Inf\",x=\"2\"} 2\na_count{x=\"2\"} 2\na_sum{x=\"2\"} 1\n# TYPE b gauge\nb 1\n# EOF\n") = false := by decide
 
 /-- the hypothesis of the two theorems above — every timestamp in the list equals itself — holds outright for absent
 and `Timestamp` timestamps, and for float timestamps whenever `==` is reflexive on them (`_parse_timestamp` never
